@@ -627,7 +627,7 @@ func runTokenStream(c *ctx) error {
 	for _, alg := range rtAlgs {
 		for _, kind := range []string{"dlg", "inv"} {
 			// bits 7–9 (early instants, audience = subject, integral floats): a few masks per algorithm
-			for _, m := range []int{128, 129, 256, 257, 384, 128 + 16, 256 + 8, 512, 513, 512 + 2 + 4, 1024, 1025, 1026, 1024 + 3, 2048, 2049, 4096, 4097, 4096 + 2, 8192, 8193, 8192 + 2, 8192 + 1 + 2 + 4} {
+			for _, m := range []int{128, 129, 256, 257, 384, 128 + 16, 256 + 8, 512, 513, 512 + 2 + 4, 1024, 1025, 1026, 1024 + 3, 2048, 2049, 4096, 4097, 4096 + 2, 8192, 8193, 8192 + 2, 8192 + 1 + 2 + 4, 16384, 16385, 16386, 16384 + 4, 16384 + 5, 16384 + 32, 16384 + 1 + 4} {
 				if !c.thoro && alg != "ed25519" && alg != "p256" {
 					continue
 				}
@@ -972,6 +972,11 @@ func tokRoundTrip(kind, alg, ms string) string {
 			opts = append(opts, delegation.WithMeta("lnk", lk), delegation.WithMeta("nest", map[string]any{"l": lk, "ll": []any{lk, "s"}}), delegation.WithMeta("byt", []byte{1, 2, 3}))
 			pol = append(pol, policy.MustConstruct(policy.Equal(".c", basicLink(lk)), policy.Any(".cs", policy.Equal(".", basicLink(lk))), policy.Equal(".bb", basicBytes([]byte("abc"))))...)
 		}
+		if opt(14) {
+			// a not-before beyond what the wire format holds, next to an expiration that is fine (or absent): whatever the
+			// constructor accepts must unseal
+			opts = append(opts, delegation.WithNotBefore(time.Unix(9007199254740992+int64(mask%3), 0)))
+		}
 		// (bit 10, instants exactly at the Unix epoch, is for invocations: the delegation constructors refuse bounds in the past)
 		var t *delegation.Token
 		if opt(6) {
@@ -983,6 +988,11 @@ func tokRoundTrip(kind, alg, ms string) string {
 				opts = append(opts, delegation.WithExpiration(time.Unix(9007199254740992, 0)))
 			}
 			t, err = delegation.Root(k.did, aud.did, cmd, pol, opts...)
+			if err != nil {
+				return "ok" // refused by the constructor: nothing to round-trip
+			}
+		} else if opt(14) {
+			t, err = delegation.New(k.did, aud.did, command.MustParse("/far/future"), pol, opts...)
 			if err != nil {
 				return "ok" // refused by the constructor: nothing to round-trip
 			}
@@ -1057,6 +1067,15 @@ func tokRoundTrip(kind, alg, ms string) string {
 			// an expiration in the last half second of the representable range: what is stored is what was checked
 			opts = append(opts, invocation.WithExpiration(time.Unix(9007199254740991, 600000000)))
 		}
+		if opt(14) {
+			// an issue time beyond what the wire format holds next to an expiration that is fine; an issue time with a
+			// sub-second part of more than half a second (written as the second it lies in)
+			if mask%2 == 0 {
+				opts = append(opts, invocation.WithInvokedAt(time.Unix(9007199254740992, 0)))
+			} else {
+				opts = append(opts, invocation.WithInvokedAt(time.Unix(1900000000, 600000000)), invocation.WithExpiration(time.Unix(2000000000, 700000000)))
+			}
+		}
 		if opt(12) {
 			// arguments given one by one and then merged with a set that overlaps them on an EARLIER key, twice
 			more := args.New()
@@ -1079,7 +1098,7 @@ func tokRoundTrip(kind, alg, ms string) string {
 		}
 		t, err := invocation.New(k.did, aud.did, icmd, prf, opts...)
 		if err != nil {
-			if opt(6) || opt(11) {
+			if opt(6) || opt(11) || opt(14) {
 				return "ok" // refused by the constructor: nothing to round-trip
 			}
 			return "constructor: " + err.Error()
